@@ -30,10 +30,12 @@ CHECKS['C18'] = dict(engine='aio-sim', level='exploration', technique='determini
 CHECKS['C09'] = dict(engine='crash-shim', level='fault_enumeration', technique='fault injection by enumeration of crash points: the real command runs under an LD_PRELOAD interposer that numbers every file-system mutation and SIGKILLs the process before call k (and mid-write for torn writes); every k of each command is visited on seeded build-directory histories, then the documented recovery is run and option values are compared with the pre/post states',
    text='Per (history, command) the set of kill points is enumerated completely in the thorough tier (all n mutation points, plus torn variants of data writes); histories, projects and commands are sampled by seed. Quick visits every point that touches a state file or is a rename/unlink/rmdir plus a seeded sample of the rest.',
    note='Trusted: the interposer sees every mutating libc call of the main process (open*/write*/rename*/unlink*/mkdir*/rmdir/fsync/truncate/link/symlink/chmod/utimensat/sendfile/copy_file_range); process-kill crash model (completed calls persist). Recovery, read-back and the command itself are real code of the tree.', ref='DESIGN §3 C09')
+CHECKS['C08'] = dict(engine='proc-sim', level='exploration', technique='deterministic simulation of process histories over persistent state: each lifecycle command runs in its own forked child over one build directory, with seeded option assignments, option-file edits and injected failures (invalid -D, armed error(), OSError at the k-th storage call); a reference model is stepped after every operation and compared with get_option() values, command outcomes and the recorded command line',
+   text='Seeded search over bounded histories (2-12 steps). Fault-free and fault-injecting histories are generated separately so the failed-step relaxation never hides a persistence bug.',
+   note='Trusted: models/options_ref.py (written from the statement; cases the statement does not decide are marked undetermined and followed, not judged). Real code: msetup, mconf, coredata, cmdline, OptionStore, interpreter.', ref='DESIGN §3 C08')
 PENDING = {
  'C05': 'claimed in DESIGN §3 (ninja-sim schedules + hermetic replay) - check not built yet in this revision',
  'C06': 'claimed in DESIGN §3 (nondeterminism seams) - check not built yet in this revision',
- 'C08': 'claimed in DESIGN §3 (lifecycle histories vs options model) - check not built yet in this revision',
  'C10': 'claimed in DESIGN §3 (fake network + fallback policy model) - check not built yet in this revision',
  'C11': 'claimed in DESIGN §3 (audit-hook FS monitor, install histories) - check not built yet in this revision',
 }
@@ -43,6 +45,7 @@ m = {
  'hooks': {'guard': 'MESON_VERIF_SIM', 'enable': 'no hook exists in /repo: every seam is reached from outside (event-loop policy, attribute patching in forked children, PATH, LD_PRELOAD, audit hooks); the guard name is reserved and unused',
            'baseline_off_cmd': PIN, 'source_commits': [], 'add_only': True},
  'engines': [
+   {'name': 'proc-sim', 'path': 'sim/core', 'serves_properties': ['C08', 'C10', 'C11'], 'kind_free_text': 'warm host process forking one child per meson command over shared persistent state (build dir / DESTDIR / subprojects); seams patched inside the child'},
    {'name': 'crash-shim', 'path': 'sim/crash', 'serves_properties': ['C09'], 'kind_free_text': 'LD_PRELOAD interposer (C) numbering file-system mutations of the main process and killing it at point k; forked-child recovery runs'},
    {'name': 'aio-sim', 'path': 'sim/aio', 'serves_properties': ['C12', 'C18'], 'kind_free_text': 'virtual-time asyncio event loop + scripted child processes/pipes/signals; real asyncio stream + subprocess protocol stack on top'},
  ],
